@@ -7,6 +7,7 @@ LEVEL = "model_checking"
 
 IO_INV = "RoundTrip LayoutOK Emit"
 CK_INV = "RestoredRight FileOrdered FileComplete FileLayout Emit"
+ST_INV = "ReadRight LoadRight SizeIsSum ClearedIsNew WriteAfterClear Emit"
 
 
 def io_cfg(kind, maxm, maxn, bh, bw, pal):
@@ -17,6 +18,18 @@ def io_cfg(kind, maxm, maxn, bh, bw, pal):
 def ck_cfg(mino, maxo, cdt, cit):
     return ("SPECIFICATION Spec\nCONSTANTS MinObj = %d MaxObj = %d CDT = %d CIT = %d\n"
             "INVARIANTS %s\nCHECK_DEADLOCK FALSE\n" % (mino, maxo, cdt, cit, CK_INV))
+
+
+def st_cfg(steps, cdt, cit):
+    return ("SPECIFICATION Spec\nCONSTANTS MaxSteps = %d CDT = %d CIT = %d\n"
+            "INVARIANTS %s\nCHECK_DEADLOCK FALSE\n" % (steps, cdt, cit, ST_INV))
+
+
+def st_configs(tier):
+    """histories over one reused BinaryStream (spec/PersistStream.tla)"""
+    if tier == "thorough":
+        return [(6, 8, 8), (5, 4, 4)]
+    return [(5, 8, 8), (4, 4, 4)]
 
 
 def io_configs(tier):
@@ -49,6 +62,11 @@ def generate(chk, tier):
         with open(os.path.join(vlib.SPEC, name), "w") as f:
             f.write(ck_cfg(*a))
         jobs.append(("PersistCkpt", name, "ckpt objs%d..%d dt%d it%d" % a))
+    for k, a in enumerate(st_configs(tier)):
+        name = "gen_PersistStream_%d_%d.cfg" % (os.getpid(), k)
+        with open(os.path.join(vlib.SPEC, name), "w") as f:
+            f.write(st_cfg(*a))
+        jobs.append(("PersistStream", name, "stream steps%d dt%d it%d" % a))
     cases = []
     try:
         with cf.ThreadPoolExecutor(max_workers=min(len(jobs), 8)) as ex:
@@ -76,6 +94,10 @@ def has_empty_row(c):
 
 
 def sig(c, r):
+    if c["part"] == "stream":
+        why = r.get("why") or ""
+        step = why.split("/step ")[1].split(":")[0] if "/step " in why else ""
+        return {"part": "stream", "ops": " ".join(o["op"] for o in c["ops"]), "failing_step": step, "cdt": c["cdt"], "outcome": r.get("outcome", "mismatch")}
     if c["part"] == "ckpt":
         return {"part": "ckpt", "nobj": len(c["objs"]), "kinds": sorted(set(o["c"]["kind"] for o in c["objs"])), "cdt": c["cdt"],
                 "outcome": r.get("outcome", "mismatch")}
@@ -87,12 +109,17 @@ def sig(c, r):
 
 
 def key(c):
+    if c["part"] == "stream":
+        return json.dumps(["st", c["cdt"], [(o["op"], o["arg"]) for o in c["ops"]]])
     if c["part"] == "ckpt":
         return json.dumps(["ck", c["cdt"], [(o["id"], o["c"]["kind"], o["c"]["m"]) for o in c["objs"]], [x["id"] for x in c["restore"]]])
     return json.dumps(["io", c["kind"], c["bh"], c["bw"], c["m"], c["n"], c["rep"], bool(c.get("alloc")), c["mode"], c["cdt"], c["cit"], c["sdt"], c["sit"]])
 
 
 def nontrivial(c):
+    if c["part"] == "stream":
+        ops = [o["op"] for o in c["ops"]]
+        return "clear" in ops and ops.index("clear") < len(ops) - 1      # the stream is reused after a clear
     if c["part"] == "ckpt":
         return len(c["objs"]) >= 2
     return len(c["arrays"]["el"]) > 0
@@ -114,7 +141,10 @@ def run(chk):
     chk.exhaustive = True
     nio = sum(1 for c in cases if c["part"] == "io")
     chk.extra["io_behaviours"] = nio
-    chk.extra["checkpoint_behaviours"] = len(cases) - nio
+    nst = sum(1 for c in cases if c["part"] == "stream")
+    chk.extra["checkpoint_behaviours"] = len(cases) - nio - nst
+    chk.extra["stream_reuse_histories"] = nst
+    chk.extra["stream_reuse_calls"] = sum(len(c["ops"]) for c in cases if c["part"] == "stream")
     chk.extra["binary_streams_parsed"] = sum(1 for c in cases if c["part"] == "io" and c["file"]["fmt"] == "bin") + sum(len(c["entries"]) for c in cases if c["part"] == "ckpt")
     chk.extra["text_streams_parsed"] = sum(1 for c in cases if c["part"] == "io" and c["file"]["fmt"] == "text")
     chk.extra["kinds_x_modes"] = sorted(set("%s/%s" % (c["kind"], c["mode"]) for c in cases if c["part"] == "io"))
@@ -124,14 +154,20 @@ def run(chk):
                 "types (double,u64),(float,u32); Write then Read; every produced stream is parsed independently and compared with the predicted "
                 "layout (length, header words, array offsets / token sequence), the container read back with the predicted state.  "
                 "spec/PersistCkpt.tla: every subset of a 6 object palette (1..3(4) objects), every registration order, 3 identifier assignments with "
-                "identifiers that are prefixes of each other, every restore order; non-trivial = container with at least one array resp. >=2 objects; "
+                "identifiers that are prefixes of each other, every restore order.  spec/PersistStream.tla: every history of 5 (thorough 6) calls "
+                "write / seekg(0) / read / clear / checkpoint save / checkpoint load on ONE reused BinaryStream object (3 containers, 2 checkpoint "
+                "object sets), size, position and segment bytes compared after every call; non-trivial = container with at least one array resp. >=2 objects; "
                 "distinct = distinct (container, mode, types) resp. (registration sequence, restore sequence)")
     for c in [x for x in cases if x["part"] == "io"][::max(1, nio // 3)][:3] + [x for x in cases if x["part"] == "ckpt"][-1:]:
+        if c["part"] == "stream":
+            continue
         if c["part"] == "io":
             chk.sample({k: c[k] for k in ("kind", "m", "n", "rep", "mode", "cdt", "sdt", "sit", "file")})
         else:
             chk.sample({"objs": [(o["id"], o["c"]["kind"]) for o in c["objs"]], "restore": [x["id"] for x in c["restore"]], "total": c["total"],
                         "entries": [(e["id"], e["len"]) for e in c["entries"]]})
+    for c in [x for x in cases if x["part"] == "stream"][-1:]:
+        chk.sample({"stream_history": [(o["op"], o["arg"], o["size"], o["pos"]) for o in c["ops"]]})
     chk.assumptions = ["values are dyadic (numerators over 4): general decimal rounding of the text formats is not explored (DESIGN.md sec. 7 residue)",
                        "zlib/zfp compression modes are compiled out of the baseline build and out of scope",
                        "files are std::stringstream / std::vector<char> / BinaryStream; the filename overloads (which only open a stream) and "
